@@ -45,7 +45,7 @@ class Clock:
 
 
 def shards(tier, seed):
-    mult = 1 if tier == "quick" else 12
+    mult = 1 if tier == "quick" else 24
     return [{"n_msgs": 12 * mult, "n_flip_msgs": 2 * mult, "n_seq": 6 * mult, "alg_offset": i} for i in range(16)]
 
 
